@@ -35,6 +35,13 @@ def setup():
     import qiskit.transpiler  # noqa: F401
     import qiskit.transpiler.passes  # noqa: F401
     assert_pristine()
+    # byte-code of the tree under test goes to a scratch directory owned by this invocation (set only
+    # now, after the third-party imports, so that their own caches keep being used)
+    pyc = os.environ.get("HTSIM_PYC")
+    if pyc:
+        sys.pycache_prefix = pyc
+    else:
+        sys.dont_write_bytecode = True
 
 
 def assert_pristine():
